@@ -146,6 +146,87 @@ Proof.
   apply get_is_get in H1. eapply get_ok_range; eauto.
 Qed.
 
+(* ---------- counting: distinct positions satisfying f are at most the number of such entries ---------- *)
+Lemma count_positions : forall (f : Z -> bool) (l : list Z) (P : list nat),
+  NoDup P -> (forall i, In i P -> exists x, nth_error l i = Some x /\ f x = true) ->
+  (length P <= length (filter f l))%nat.
+Proof.
+  intros f l. induction l as [|x l IH]; intros P Hnd H.
+  - destruct P as [|i P]; [simpl; lia|]. destruct (H i (or_introl eq_refl)) as (y & Hy & _).
+    destruct i; discriminate.
+  - set (P' := map Nat.pred (filter (fun i => negb (Nat.eqb i 0)) P)).
+    assert (HndP' : NoDup P').
+    { unfold P'. clear -Hnd. induction P as [|i P IHP]; simpl; [constructor|].
+      inversion Hnd; subst. destruct i as [|i]; simpl; auto. constructor; auto.
+      intro Hin. apply in_map_iff in Hin as (j & Hj & Hin). apply filter_In in Hin as [Hin Hj0].
+      destruct j as [|j]; [discriminate|]. simpl in Hj. subst. auto. }
+    assert (HP' : forall i, In i P' -> exists y, nth_error l i = Some y /\ f y = true).
+    { intros i Hi. unfold P' in Hi. apply in_map_iff in Hi as (j & Hj & Hin).
+      apply filter_In in Hin as [Hin Hj0]. destruct j as [|j]; [discriminate|]. simpl in Hj. subst.
+      destruct (H (S i) Hin) as (y & Hy & Hf). exists y. auto. }
+    specialize (IH P' HndP' HP').
+    assert (Hlen : (length P <= length P' + (if existsb (Nat.eqb 0) P then 1 else 0))%nat).
+    { unfold P'. rewrite map_length. clear -Hnd. induction P as [|i P IHP]; [simpl; lia|].
+      inversion Hnd; subst. specialize (IHP H2).
+      destruct i as [|i]; cbn [length filter existsb Nat.eqb negb orb].
+      - assert (existsb (Nat.eqb 0) P = false).
+        { destruct (existsb (Nat.eqb 0) P) eqn:E; auto. apply existsb_exists in E as (j & Hj & E).
+          apply Nat.eqb_eq in E. subst. contradiction. }
+        rewrite H in IHP. lia.
+      - change (existsb (fun m : nat => match m with 0%nat => true | S _ => false end) P)
+          with (existsb (Nat.eqb 0) P).
+        destruct (existsb (Nat.eqb 0) P); lia. }
+    cbn [filter]. destruct (existsb (Nat.eqb 0) P) eqn:E.
+    + apply existsb_exists in E as (j & Hj & E). apply Nat.eqb_eq in E. subst j.
+      destruct (H 0%nat Hj) as (y & Hy & Hf). simpl in Hy. inversion Hy; subst. rewrite Hf. simpl. lia.
+    + destruct (f x); simpl; lia.
+Qed.
+
+Lemma count_if_ge : forall (f : Z -> bool) (l : list Z) (I : list Z),
+  NoDup I -> (forall i, In i I -> exists x, get l i = Ok x /\ f x = true) ->
+  zlen I <= count_if f l.
+Proof.
+  intros f l I Hnd H. unfold count_if, zlen.
+  assert (Hr : forall i, In i I -> 0 <= i).
+  { intros i Hi. destruct (H i Hi) as (x & Hx & _). pose proof (get_ok_range _ _ _ Hx). lia. }
+  assert (HndP : NoDup (map Z.to_nat I)).
+  { clear -Hnd Hr. induction I as [|x I IH]; simpl; constructor.
+    - inversion Hnd; subst. intro Hin. apply in_map_iff in Hin as (y & Hy & Hin).
+      assert (x = y) by (pose proof (Hr x (or_introl eq_refl)); pose proof (Hr y (or_intror Hin)); lia).
+      subst. auto.
+    - inversion Hnd; subst. apply IH; auto. intros; apply Hr; simpl; auto. }
+  pose proof (count_positions f l (map Z.to_nat I) HndP) as Hc. rewrite map_length in Hc.
+  apply Nat2Z.inj_le. apply Hc.
+  intros n Hn. apply in_map_iff in Hn as (i & <- & Hi). destruct (H i Hi) as (x & Hx & Hf).
+  exists x. split; auto. unfold get in Hx. destruct (i <? 0); [discriminate|].
+  destruct (nth_error l (Z.to_nat i)); [inversion Hx; reflexivity | discriminate].
+Qed.
+
+Lemma rep_par_nonneg : forall a t p, repb a p t = true -> 0 <= p ->
+  forall x, In x (ids t) -> exists q, get (ct_par a) x = Ok q /\ negb (q =? -1) = true.
+Proof.
+  induction t as [v kids IH] using rtree_ind'. intros p Hrep Hp x Hx.
+  apply repb_unfold in Hrep as (Hpar & _ & _ & _ & Hk).
+  cbn [ids] in Hx. destruct Hx as [<-|Hx].
+  - exists p. split; auto. apply negb_true_iff, Z.eqb_neq. lia.
+  - apply in_flat_map in Hx as (k & Hkin & Hxk). rewrite Forall_forall in IH, Hk.
+    apply (IH k Hkin v (Hk k Hkin)); auto. pose proof (get_ok_range _ _ _ Hpar). lia.
+Qed.
+
+Lemma size_le_bound : forall a p t, repb a p t = true -> NoDup (ids t) ->
+  Z.of_nat (rsize t) <= size_bound a.
+Proof.
+  intros a p [v kids] Hrep Hnd. rewrite rsize_ids. cbn [ids length].
+  pose proof (repb_unfold _ _ _ _ Hrep) as (Hpar & _ & _ & _ & Hk).
+  inversion Hnd as [|? ? Hv Hndk]; subst.
+  assert (zlen (flat_map ids kids) <= num_edges_of a).
+  { unfold num_edges_of. apply count_if_ge; auto. intros x Hx.
+    apply in_flat_map in Hx as (k & Hkin & Hxk). rewrite Forall_forall in Hk.
+    apply (rep_par_nonneg a k v (Hk k Hkin)); auto. pose proof (get_ok_range _ _ _ Hpar). lia. }
+  unfold size_bound. assert (0 <= num_samples_of a) by (unfold num_samples_of, count_if; apply zlen_nonneg).
+  unfold zlen in *. lia.
+Qed.
+
 Section Sim.
   Variable Tm : Type.
   Variable tsub : Tm -> Tm -> Tm.
@@ -184,6 +265,43 @@ Section Sim.
     match t with
     | RN _ kids => match kids with [] => 1%nat | _ => (2 + list_sum (map steps kids))%nat end
     end.
+
+  (* entries of the traversal stack a subtree needs, itself included *)
+  Fixpoint occ (t : rtree) : Z :=
+    match t with
+    | RN _ kids =>
+        1 + (fix go (l : list rtree) : Z :=
+               match l with [] => 0 | k :: r => Z.max (occ k + zlen r) (go r) end) kids
+    end.
+  Definition occ_kids : list rtree -> Z :=
+    fix go (l : list rtree) : Z :=
+      match l with [] => 0 | k :: r => Z.max (occ k + zlen r) (go r) end.
+  Lemma occ_unfold : forall v kids, occ (RN v kids) = 1 + occ_kids kids.
+  Proof. reflexivity. Qed.
+  Lemma occ_kids_cons : forall k r, occ_kids (k :: r) = Z.max (occ k + zlen r) (occ_kids r).
+  Proof. reflexivity. Qed.
+  Lemma occ_pos : forall t, 1 <= occ t.
+  Proof.
+    destruct t as [v kids]. rewrite occ_unfold.
+    assert (0 <= occ_kids kids); [|lia].
+    induction kids as [|k r IH]; [simpl; lia|]. rewrite occ_kids_cons. lia.
+  Qed.
+  Lemma occ_kids_len : forall ks, (forall k, In k ks -> 1 <= occ k) -> zlen ks <= occ_kids ks.
+  Proof.
+    induction ks as [|k r IH]; intros H; [simpl; unfold zlen; simpl; lia|].
+    rewrite occ_kids_cons, zlen_cons. specialize (H k (or_introl eq_refl)). lia.
+  Qed.
+
+  Lemma occ_le_size : forall t, occ t <= Z.of_nat (rsize t).
+  Proof.
+    induction t as [v kids IH] using rtree_ind'. rewrite occ_unfold. cbn [rsize]. rewrite Nat2Z.inj_succ.
+    assert (H : occ_kids kids <= Z.of_nat (list_sum (map rsize kids)) /\ zlen kids <= Z.of_nat (list_sum (map rsize kids))).
+    { induction kids as [|k r IHr]; [simpl; unfold zlen; simpl; lia|].
+      inversion IH; subst. specialize (IHr H2). rewrite occ_kids_cons, zlen_cons.
+      change (list_sum (map rsize (k :: r))) with (rsize k + list_sum (map rsize r))%nat.
+      rewrite Nat2Z.inj_add. pose proof (occ_pos k). lia. }
+    lia.
+  Qed.
 
   Lemma pyb_internal : forall v k ks,
     pyb (RN v (k :: ks)) = 40 :: wkids v (k :: ks) ++ lab v.
@@ -227,9 +345,10 @@ Section Sim.
     ls_ok a (-1) kids = true ->
     NoDup (map rid kids) ->
     v <> u -> zlen out < B ->
+    zlen kids + 1 + zlen stk <= size_bound a ->
     step (v :: stk, u, out) = Ok (map rid kids ++ v :: stk, u, out ++ [40]).
   Proof.
-    intros v kids stk u out Hne Hlc Hrc Hls Hnd Hvu HB.
+    intros v kids stk u out Hne Hlc Hrc Hls Hnd Hvu HB Hcap.
     unfold cstep. rewrite Hlc. cbn [bind].
     assert (Hf : first_id kids <> -1).
     { destruct kids as [|k r]; [congruence|]. cbn [first_id].
@@ -247,7 +366,10 @@ Section Sim.
       assert (length (map rid kids) <= length (ct_ls a))%nat.
       { apply pigeon; auto. intros x Hx. pose proof (ls_ok_range _ _ _ Hls x Hx). unfold zlen in *. lia. }
       rewrite map_length in H. lia. }
-    rewrite Hs. cbn [bind]. rewrite rev_involutive. reflexivity.
+    rewrite Hs. cbn [bind]. rewrite rev_involutive.
+    replace (zlen (map rid kids ++ v :: stk) >? size_bound a) with false; [reflexivity|].
+    symmetry. rewrite Z.gtb_ltb. apply Z.ltb_ge. rewrite zlen_app, zlen_cons.
+    unfold zlen in *. rewrite map_length. lia.
   Qed.
 
   Definition ctx_ok (p : Z) (isroot last : bool) (v : Z) : Prop :=
@@ -307,6 +429,7 @@ Section Sim.
       (forall v, In v (ids t) -> lab_agrees v) ->
       ctx_ok p isroot last (rid t) ->
       zlen (out ++ wtext p isroot last t) < B ->
+      occ t + zlen stk <= size_bound a ->
       run (steps t + f)%nat (rid t :: stk, u, out)
       = run f (stk, p, out ++ wtext p isroot last t).
 
@@ -318,11 +441,13 @@ Section Sim.
       (forall w, In w (flat_map ids ks) -> lab_agrees w) ->
       get (ct_rc a) v = Ok (last_id x ks) ->
       zlen (out ++ wkids v ks) < B ->
+      occ_kids ks + zlen stk <= size_bound a ->
       run (list_sum (map steps ks) + f)%nat (map rid ks ++ stk, u, out)
       = run f (stk, v, out ++ wkids v ks).
   Proof.
-    induction ks as [|k r IH]; intros HF Hne x u out f stk Hrep Hnd Hu Hv Hrp Hvrp Hlab Hrc HB;
+    induction ks as [|k r IH]; intros HF Hne x u out f stk Hrep Hnd Hu Hv Hrp Hvrp Hlab Hrc HB Hcap;
       [congruence|].
+    rewrite occ_kids_cons in Hcap.
     inversion HF as [|? ? Hk Hr]; subst. inversion Hrep as [|? ? Hrk Hrr]; subst.
     cbn [flat_map] in *.
     assert (Hndk' : NoDup (ids k)).
@@ -353,6 +478,7 @@ Section Sim.
         all: try (intro Hin; apply Hrp; apply in_or_app; auto; fail).
         all: try (intros w Hw; apply Hlab; apply in_or_app; auto; fail).
         all: try (rewrite <- app_assoc; exact HB).
+        all: try lia.
     - intro Hin. apply Hu. apply in_or_app. auto.
     - intro Hin. apply Hrp. apply in_or_app. auto.
     - intros w Hw. apply Hlab. apply in_or_app. auto.
@@ -362,12 +488,13 @@ Section Sim.
       + symmetry. apply Z.eqb_neq. intro E.
         apply (Hdisj (rid k) (rid_in_ids k)). rewrite E.
         apply map_rid_incl. apply last_id_in. discriminate.
+    - rewrite zlen_app. assert (zlen (map rid r) = zlen r) by (unfold zlen; rewrite map_length; reflexivity). lia.
   Qed.
 
   Lemma sub_sim_all : forall t, sub_sim t.
   Proof.
     induction t as [v kids IH] using rtree_ind'.
-    intros p isroot last stk u out f Hrep Hnd Hu Hrp Hlab Hctx HB.
+    intros p isroot last stk u out f Hrep Hnd Hu Hrp Hlab Hctx HB Hcap.
     apply repb_unfold in Hrep as (Hpar & Hlc & Hrc & Hls & Hk).
     cbn [rid] in *. cbn [ids] in Hnd, Hu, Hrp.
     inversion Hnd as [|? ? Hvk Hndk]; subst.
@@ -395,8 +522,10 @@ Section Sim.
       pose proof (zlen_nonneg tail). pose proof (zlen_nonneg out).
       change (steps (RN v (k :: ks))) with (S (S (list_sum (map steps (k :: ks))))).
       cbn [Nat.add].
+      assert (Hocc : zlen (k :: ks) <= occ_kids (k :: ks)) by (apply occ_kids_len; intros; apply occ_pos).
+      rewrite occ_unfold in Hcap.
       erewrite run_step.
-      2:{ apply step_open with (kids := k :: ks); auto. lia. }
+      2:{ apply step_open with (kids := k :: ks); auto; lia. }
       replace (S (list_sum (map steps (k :: ks)) + f))%nat
         with (list_sum (map steps (k :: ks)) + S f)%nat by lia.
       rewrite (kids_sim v (k :: ks) IH Hne (-1)); auto.
@@ -408,6 +537,7 @@ Section Sim.
       + intro Hin. apply Hrp. simpl. auto.
       + intros w Hw. apply Hlab. simpl. auto.
       + rewrite !zlen_app. assert (zlen [40] = 1) by reflexivity. lia.
+      + rewrite zlen_cons. lia.
   Qed.
 
   Lemma steps_le : forall t, (steps t <= 2 * rsize t)%nat.
@@ -447,5 +577,7 @@ Section Sim.
       reflexivity.
     - reflexivity.
     - lia.
+    - pose proof (occ_le_size t). pose proof (size_le_bound a rp t Hrep Hnd).
+      assert (zlen (@nil Z) = 0) by reflexivity. lia.
   Qed.
 End Sim.
